@@ -7,12 +7,14 @@ import re
 import sys
 
 import common
+from common import prune_cache as common_prune
 from common import CACHE, MachineryError, WORK, printed, run_tlc, spec_hash, tlc_error_excerpt
 
 
 def transitions(depth=2):
     key = spec_hash("Elements.tla") + f"-{depth}"
     p = CACHE / f"elements-{key}.ndjson"
+    common_prune("elements", key)
     CACHE.mkdir(exist_ok=True)
     if p.exists():
         return [json.loads(l) for l in p.open()]
